@@ -112,6 +112,10 @@ def cases(rng, tier):
 		for name, coded in ((b'gzip', _gz.compress(data, mtime=0)), (b'deflate', _zl.compress(data))):
 			corpus.append(('server', b'POST / HTTP/1.1\r\nHost: h\r\nContent-Encoding: ' + name + b'\r\nContent-Length: %d\r\n\r\n' % len(coded) + coded + b'GET / HTTP/1.1\r\nHost: h\r\nContent-Length: 0\r\n\r\n'))
 			corpus.append(('client', b'HTTP/1.1 200 OK\r\nContent-Encoding: ' + name + b'\r\nContent-Length: %d\r\n\r\n' % len(coded) + coded))
+			# the same octets under a transfer coding other than chunked (answered 501 wherever the stream is cut)
+			corpus.append(('server', b'POST / HTTP/1.1\r\nHost: h\r\nTransfer-Encoding: ' + name + b'\r\n\r\n' + coded))
+			corpus.append(('client', b'HTTP/1.1 200 OK\r\nTransfer-Encoding: ' + name + b'\r\n\r\n' + coded))
+			corpus.append(('server', b'POST / HTTP/1.1\r\nHost: h\r\nTransfer-Encoding: ' + name + b'\r\nContent-Length: %d\r\n\r\n' % len(coded) + coded))
 			h = len(coded) // 2
 			corpus.append(('server', b'POST / HTTP/1.1\r\nHost: h\r\nContent-Encoding: ' + name + b'\r\nTransfer-Encoding: chunked\r\n\r\n%x\r\n' % h + coded[:h] + b'\r\n%x\r\n' % (len(coded) - h) + coded[h:] + b'\r\n0\r\n\r\n'))
 	for side, s in corpus:
